@@ -10,12 +10,17 @@ r = git("apply", patch)
 if r.returncode != 0:
     print("patch does not apply:", r.stderr); sys.exit(2)
 res = {}
+def one(c):
+    t0 = time.time()
+    p = subprocess.run([os.path.join(os.path.dirname(os.path.abspath(__file__)), "check"), c, "--tier", os.environ.get("VERIF_TIER", "quick")], capture_output=True, text=True, cwd=os.path.dirname(os.path.dirname(os.path.abspath(__file__))))
+    lines = [l for l in p.stdout.splitlines() if l.startswith("VIOLATION") or l.startswith("  key=") or l.startswith("HARNESS") or l.startswith(c + " tier")]
+    return c, (p.returncode, time.time() - t0, lines[:7])
 try:
-    for c in checks:
-        t0 = time.time()
-        p = subprocess.run([os.path.join(os.path.dirname(os.path.abspath(__file__)), "check"), c, "--tier", os.environ.get("VERIF_TIER", "quick")], capture_output=True, text=True, cwd=os.path.dirname(os.path.dirname(os.path.abspath(__file__))))
-        lines = [l for l in p.stdout.splitlines() if l.startswith("VIOLATION") or l.startswith("  key=") or l.startswith("HARNESS") or l.startswith(c + " tier")]
-        res[c] = (p.returncode, time.time() - t0, lines[:7])
+    # the checks of one seed run two at a time (each copies /repo's working tree, patch applied, into its own scratch directory)
+    import concurrent.futures as cf
+    with cf.ThreadPoolExecutor(max_workers=int(os.environ.get("SEEDTEST_PARALLEL", "2"))) as ex:
+        for c, r in ex.map(one, checks):
+            res[c] = r
 finally:
     git("checkout", "--", ".")
     subprocess.run(["git", "-C", "/repo", "clean", "-fdq", "--", "src"], capture_output=True)
